@@ -618,6 +618,7 @@ func (a *RangeArg) Parse() error {
 	str = strings.Replace(str, " ", "", -1)
 	str = strings.Replace(str, "\t", "", -1)
 	str = strings.Replace(str, "\n", "", -1)
+	str = strings.Replace(str, "\r", "", -1)
 
 	/* range-part *(optsep "|" optsep range-part) */
 	rparts := strings.Split(str, "|")
@@ -688,6 +689,7 @@ func (a *LengthArg) Parse() error {
 	str = strings.Replace(str, " ", "", -1)
 	str = strings.Replace(str, "\t", "", -1)
 	str = strings.Replace(str, "\n", "", -1)
+	str = strings.Replace(str, "\r", "", -1)
 
 	/* length-part *(optsep "|" optsep length-part) */
 	lparts := strings.Split(str, "|")
